@@ -245,8 +245,11 @@ impl<'tcx> BorrowingParamVisitor<'tcx> {
         param_name: &str,
     ) -> ParamBorrowInfo<'tcx> {
         let mut is_borrowed = false;
+        // An optional parameter (`DiplomatOption<T>`) borrows exactly like `T` does; the edges record
+        // optionality separately (see `LifetimeEdgeKind::StructLifetime`).
+        let inner_ty = ty.unwrap_option();
         if self.used_method_lifetimes.is_empty() {
-            if let hir::Type::Slice(..) = *ty {
+            if let hir::Type::Slice(..) = *inner_ty {
                 return ParamBorrowInfo::TemporarySlice;
             } else {
                 return ParamBorrowInfo::NotBorrowed;
@@ -255,7 +258,7 @@ impl<'tcx> BorrowingParamVisitor<'tcx> {
 
         // Structs have special handling: structs are purely Dart-side, so if you borrow
         // from a struct, you really are borrowing from the internal fields.
-        if let hir::Type::Struct(s) = ty {
+        if let hir::Type::Struct(s) = inner_ty {
             let mut borrowed_struct_lifetime_map = BTreeMap::<Lifetime, BTreeSet<Lifetime>>::new();
             let link = s.link_lifetimes(self.tcx);
             for (method_lifetime, method_lifetime_info) in &mut self.borrow_map {
@@ -308,7 +311,7 @@ impl<'tcx> BorrowingParamVisitor<'tcx> {
                 for lt in ty.lifetimes() {
                     if let MaybeStatic::NonStatic(lt) = lt {
                         if method_lifetime.all_longer_lifetimes.contains(&lt) {
-                            let kind = match ty {
+                            let kind = match inner_ty {
                                 hir::Type::Slice(..) => LifetimeEdgeKind::SliceParam,
                                 hir::Type::Opaque(..) => LifetimeEdgeKind::OpaqueParam,
                                 _ => unreachable!("Types other than slices, opaques, and structs cannot have lifetimes")
@@ -327,7 +330,7 @@ impl<'tcx> BorrowingParamVisitor<'tcx> {
                     }
                 }
             }
-            match (is_borrowed, ty) {
+            match (is_borrowed, inner_ty) {
                 (true, &hir::Type::Slice(..)) => ParamBorrowInfo::BorrowedSlice,
                 (false, &hir::Type::Slice(..)) => ParamBorrowInfo::TemporarySlice,
                 (false, _) => ParamBorrowInfo::NotBorrowed,
